@@ -4,9 +4,26 @@ import FGVerif.Model.C13
 namespace C13
 open SExp
 
+/-- (test) the model's label lists, in key order, are the specified ones for arbitrary parent ids
+    (`C13.replace_labels_ids`) -/
+def exactIds (g : Graph) (x : Int) (sub : Graph) (anchors : List Nat) (model : Graph) : Bool :=
+  let n1 : Int := (g.nodes.length : Int) - 1
+  ((surv g x).all fun u => (surv g x).all fun v =>
+    labelsBetween model (renIds g x u) (renIds g x v) == labelsBetween g u v) &&
+  (sub.nodeIds.all fun i => sub.nodeIds.all fun j =>
+    labelsBetween model (i + n1) (j + n1) == labelsBetween sub i j) &&
+  ((surv g x).all fun u => sub.nodeIds.all fun j =>
+    labelsBetween model (renIds g x u) (j + n1) == crossLabels g x anchors u j &&
+    labelsBetween model (j + n1) (renIds g x u) == crossLabels g x anchors u j)
+
+/-- the specification the verdict is decided with: `specCheckIds` (arbitrary parent ids, `C13.specCheckIds_sound`)
+    and, where the parent's ids are `0..n-1`, also the original `specCheck` (`C13.specCheck_sound_any`) -/
+def specOf (g : Graph) (x : Int) (sub : Graph) (anchors : List Nat) (out : Graph) : Bool :=
+  specCheckIds g x sub anchors out && (!inDomainAny g x sub anchors || specCheck g x sub anchors out)
+
 /-- `(replace <g> <node> <sub parsed at offset 0> (<anchor> …) [<impl graph> | (raised K)])`
       → `(ok <model result, exact wire form> <spec_model> <spec_impl> <inDomain> <incident order = incSpec>
-           <labels in spec order> <inDomainAny>)`
+           <labels in spec order> <inDomainAny> <inDomainIds> <nextId g>)`
     `(relabel <g> <offset> [<impl graph>])`
       → `(ok <model result> <spec_model> <spec_impl>)` -/
 def handle : List SExp → Option SExp
@@ -16,22 +33,24 @@ def handle : List SExp → Option SExp
       let sub ← asGraph sub
       let anchors ← asList asNat anchors
       let model := replaceNode g node sub anchors
-      let specModel := specCheck g node sub anchors model
+      let specModel := specOf g node sub anchors model
       let specImpl ← match rest with
         | [.list [.atom "raised", _]] => pure (ofBool false)
         | [impl] => do
             let out ← asGraph impl
-            pure (ofBool (specCheck g node sub anchors out))
+            pure (ofBool (specOf g node sub anchors out))
         | _ => pure none'
       -- the incident-edge order after the composition step, model of compose vs declarative order
-      let c := compose g (shiftGraph sub g.nodes.length)
+      let c := compose g (shiftGraph sub (nextId g))
       let incOk := (c.edgesOf node).map (fun e => (e.2.1, e.2.2.2)) == incSpec g node
-      -- (test) the model meets the spec with the labels in the very order of `specLabels`
-      let exactOk := model.nodeIds.all fun a => model.nodeIds.all fun b =>
-        labelsBetween model a b == specLabels g node sub anchors a b
+      -- (test) the model meets the spec with the labels in the very order of the specification
+      let anyDom := inDomainAny g node sub anchors
+      let exactOk := exactIds g node sub anchors model &&
+        (!anyDom || model.nodeIds.all fun a => model.nodeIds.all fun b =>
+          labelsBetween model a b == specLabels g node sub anchors a b)
       pure (.list [.atom "ok", ofGraph model, ofBool specModel, specImpl,
                    ofBool (inDomain g node sub anchors), ofBool incOk, ofBool exactOk,
-                   ofBool (inDomainAny g node sub anchors)])
+                   ofBool anyDom, ofBool (inDomainIds g node sub anchors), .atom (toString (nextId g))])
   | .atom "relabel" :: g :: off :: rest => do
       let g ← asGraph g
       let off ← asInt off
